@@ -236,6 +236,143 @@ def proof_side_file_uncached(pid, stem, thorough=False):
     return res
 
 
+# ------------------------------------------------------------------ translated (regenerated) model
+# Properties whose Rust module is inside the subset of gen/rs2v.py: the translator regenerates the
+# Gallina definitions from REPO/src on every run, and the link / transported theorems of
+# coq/gendep/ are re-checked against them in a scratch directory (namespace SVG).
+PROP_GEN = {
+    "C15": {"modules": ["LoopRangeGen"], "files": ["GenLinkLoopRange.v", "GenPropsLoopRange.v", "C15g.v"],
+            "main_deps": ["LoopRangeProofs.vo", "GenBase.vo"], "main_cone": ["LoopRangeProofs.v", "GenBase.v"]},
+    "C20": {"modules": ["CharSetGen"], "files": ["GenLinkCharSet.v", "GenPropsCharSet.v", "C20g.v"],
+            "main_deps": ["CharSetProofs.vo", "GenBase.vo"], "main_cone": ["CharSetProofs.v", "GenBase.v"]},
+}
+
+
+def parse_assumption_reports(out):
+    reports, cur = [], None
+    for line in out.splitlines():
+        if line.startswith("Closed under the global context"):
+            reports.append([]); cur = None
+        elif line.startswith("Axioms:"):
+            cur = []; reports.append(cur)
+        elif cur is not None:
+            m = re.match(r"^([A-Za-z_][A-Za-z0-9_.']*)\s*:", line)
+            if m:
+                cur.append(m.group(1))
+            elif line and not line.startswith(" "):
+                cur = None
+    return reports
+
+
+def gen_proof_side(pid, thorough=False):
+    """-> None if the property has no translated module; else dict(available, reason, obligations,
+    discharged, failures, theorems, files, modules, functions, source_files)"""
+    cfg = PROP_GEN.get(pid)
+    if cfg is None:
+        return None
+    import shutil
+    sys.path.insert(0, os.path.join(ROOT, "gen"))
+    import rs2v
+    t0 = time.time()
+    scratch = os.path.join(BUILD, "gen" + REPO_TAG, pid)
+    res = {"available": False, "reason": "", "obligations": 0, "discharged": 0, "failures": [], "theorems": [],
+           "files": [], "modules": cfg["modules"], "functions": {}, "translator": "gen/rs2v.py",
+           "source_files": sorted(set(f for m in cfg["modules"] for f in rs2v.MODULES[m]["files"]))}
+    texts = {}
+    for m in cfg["modules"]:
+        try:
+            text, fns = rs2v.translate_module(m, REPO)
+        except rs2v.Unsupported as ex:
+            res["reason"] = "translation of %s: %s" % (m, ex)
+            return res
+        except Exception as ex:            # a source the tokenizer / parser cannot digest at all
+            res["reason"] = "translation of %s: translator error %r" % (m, ex)
+            return res
+        texts[m + ".v"] = text
+        res["functions"].update(fns)
+    res["available"] = True
+    for f in cfg["files"]:
+        texts[f] = open(os.path.join(COQ, "gendep", f)).read()
+    h = hashlib.sha256()
+    for f in sorted(texts):
+        h.update(f.encode()); h.update(texts[f].encode())
+    for f in cfg["main_cone"]:
+        for g in sorted(dep_cone(f)):
+            h.update(g.encode()); h.update(open(os.path.join(COQ, g), "rb").read())
+    key = h.hexdigest()
+    cache = os.path.join(BUILD, "genproof", pid + "-" + key[:24] + (".thorough" if thorough else "") + ".json")
+    if os.path.exists(cache):
+        try:
+            c = json.load(open(cache))
+            c["cached"] = True
+            return c
+        except Exception:
+            pass
+    rc, out = coq_make(cfg["main_deps"])
+    if rc != 0:
+        res["failures"].append("coq build of %s failed:\n%s" % (cfg["main_deps"], out[-2000:]))
+        return res
+    with Lock("gen-" + pid + REPO_TAG):
+        shutil.rmtree(scratch, ignore_errors=True)
+        os.makedirs(scratch)
+        for f, t in texts.items():
+            open(os.path.join(scratch, f), "w").write(t)
+        order = [m + ".v" for m in cfg["modules"]] + cfg["files"]
+        prop = cfg["files"][-1]
+        src = strip_comments(texts[prop])
+        thms = re.findall(r"\bTheorem\s+([A-Za-z0-9_']+)", src)
+        res["theorems"] = thms
+        res["obligations"] = len(thms)
+        for m in re.finditer(r"\bTheorem\s+([A-Za-z0-9_']+).*?\bProof\.(.*?)\b(Qed|Defined|Admitted)\.", src, re.S):
+            body = m.group(2).strip()
+            if not re.fullmatch(r"exact\s+[^.;]+(\.[A-Za-z_][A-Za-z0-9_']*)*\s*\.", body) or m.group(3) != "Qed":
+                res["failures"].append("theorem %s: proof is not a single `exact`" % m.group(1))
+        out_prop = ""
+        for f in order:
+            rc, out = sh(["coqc", "-R", COQ, "SV", "-Q", scratch, "SVG", os.path.join(scratch, f)], cwd=scratch, timeout=900)
+            if rc != 0:
+                res["failures"].append("coqc of %s (against the definitions regenerated from %s) failed:\n%s"
+                                       % (f, ", ".join(res["source_files"]), out[-2500:]))
+                break
+            if f == prop:
+                out_prop = out
+        res["files"] = ["gendep/" + f if f in cfg["files"] else "<generated>/" + f for f in order]
+        for f in order:
+            for mm in FORBIDDEN.finditer(strip_comments(texts[f])):
+                res["failures"].append("forbidden construct %s: %s" % (f, mm.group(0)))
+        if not res["failures"]:
+            reports = parse_assumption_reports(out_prop)
+            printed = re.findall(r"\bPrint\s+Assumptions\s+([A-Za-z0-9_']+)", src)
+            for t in thms:
+                if t not in printed:
+                    res["failures"].append("theorem %s has no Print Assumptions" % t)
+            if len(reports) != len(printed):
+                res["failures"].append("expected %d assumption reports, coqc printed %d" % (len(printed), len(reports)))
+            ok = 0
+            for name, rep in zip(printed, reports):
+                extra = [a for a in rep if a not in ALLOWED_AXIOMS]
+                if extra:
+                    res["failures"].append("theorem %s depends on axioms outside the allow-list: %s" % (name, ", ".join(extra)))
+                elif name in thms:
+                    ok += 1
+            res["discharged"] = ok if not res["failures"] else min(ok, max(0, len(thms) - 1))
+        if thorough and not res["failures"]:
+            rc, out = sh(["coqchk", "-silent", "-o", "-R", COQ, "SV", "-Q", scratch, "SVG", "SVG." + prop[:-2]],
+                         cwd=scratch, timeout=3000)
+            if rc != 0:
+                res["failures"].append("coqchk failed: " + out[-2000:])
+            else:
+                m = re.search(r"Axioms:\s*(.*?)(?:\n\S|\Z)", out, re.S)
+                ax = m.group(1).strip() if m else ""
+                if ax and "<none>" not in ax:
+                    res["failures"].append("coqchk reports axioms: " + ax)
+    res["wall_s"] = round(time.time() - t0, 1)
+    if not res["failures"]:
+        os.makedirs(os.path.dirname(cache), exist_ok=True)
+        json.dump(res, open(cache, "w"))
+    return res
+
+
 # ------------------------------------------------------------------ builds
 def build_driver():
     with Lock("coq"):
